@@ -188,6 +188,11 @@ func init() {
 			m.stubsUsed["uuid = fresh opaque id"]++
 			return m.fresh("uuid", BV(strW))
 		},
+		// pure string functions on literals / small-domain strings are computed; on an opaque
+		// symbolic string they are not encodable
+		"strings.TrimSpace": strFn1("strings.TrimSpace", strings.TrimSpace),
+		"strings.ToLower":   strFn1("strings.ToLower", strings.ToLower),
+		"strings.ToUpper":   strFn1("strings.ToUpper", strings.ToUpper),
 		"strings.Join": func(m *Machine, args []Value, g *Term, site ssa.Instruction) Value {
 			m.stubsUsed["strings.Join = opaque string"]++
 			return m.fresh("join", BV(strW))
@@ -195,6 +200,27 @@ func init() {
 	}
 	for k, v := range timeIntrinsics() {
 		intrinsicTable[k] = v
+	}
+}
+
+// strFn1 lifts a pure Go function string -> string over literal and small-domain string terms.
+func strFn1(name string, f func(string) string) intrinsicFn {
+	return func(m *Machine, args []Value, g *Term, site ssa.Instruction) Value {
+		m.stubsUsed[name+" = computed on literal / small-domain strings"]++
+		t := args[0].(*Term)
+		one := func(k uint64) uint64 {
+			if int(k) >= len(m.strs) {
+				panic(notEncoded("%s of an opaque symbolic string", name))
+			}
+			return uint64(m.intern(f(m.strs[k])))
+		}
+		if t.IsConst() {
+			return Const(strW, one(t.val))
+		}
+		if t.cases != nil {
+			return lift1(t, strW, one)
+		}
+		panic(notEncoded("%s of an opaque symbolic string", name))
 	}
 }
 
